@@ -16,7 +16,7 @@ def run(ctx, res):
                       "C17.token (the private number token is the same string in json-syntax's serializer, its map visitor and json-number's Serialize)",
                       "C17.handshake (SerializeMap: empty object + token key -> number mode -> value through StringNumberSerializer -> end yields the number; otherwise ordinary entries)",
                       "C17.dedup (the map serializer and both visit_map implementations build objects with Object::insert: duplicates collapse to the first position with the last value)",
-                      "C17.de (ValueVisitor: visit_* -> variant table; sequences collected in order) and C16.de for Value as a Deserializer"]
+                      "C17.de (ValueVisitor: visit_* -> variant table; sequences collected in order) and C17.de.value (Value as a Deserializer: deserialize_any per variant and the sequence / map accessors — the part of C16.de that deserializing a Value from a Value drives)"]
     ser_rule(ctx, res)
     res.rules_run.append("C17.serializer (the methods of the crate's Serializer that Serialize for Value / Number drives — unit, bool, i64, u64, f64, str, seq — build the matching variant from the argument itself: C16.ser restricted to them)")
     C16.ser_rule(ctx, res, only={"root_ser_unit", "root_ser_bool", "root_ser_i64", "root_ser_u64", "root_ser_f64", "root_ser_str", "root_ser_seq"}, rule="C17.serializer")
@@ -24,7 +24,7 @@ def run(ctx, res):
     handshake_rule(ctx, res)
     dedup_rule(ctx, res)
     visitor_rule(ctx, res)
-    C16.de_rule(ctx, res)
+    C16.de_rule(ctx, res, only={"any"}, rule="C17.de.value")
     res.notes.append("not decided: which number spellings survive (integer syntax beyond 64 bits or with an exponent fails with 'number too large'; > 19 significant digits may be one ulp off) — numeric behaviour of json-number")
     res.trusted += ["json-number's Serialize / Deserializer for NumberBuf", "serde's blanket impls", "smallstr's PartialEq<str>"]
 
